@@ -9,7 +9,7 @@ Mutants under a 'neutral' directory are behaviour-preserving edits: they must ad
 import json, os, shutil, subprocess, sys, tempfile, glob, re
 from concurrent.futures import ThreadPoolExecutor
 
-VCHECK = "/verif/bin/vcheck"
+VCHECK = os.environ.get("VCHECK", "/verif/bin/vcheck")
 ENV = dict(os.environ, GOFLAGS="-mod=mod", GOPROXY="off", GOSUMDB="off", GOTOOLCHAIN="local")
 ALL = ["C%02d" % i for i in range(1, 21)]
 
